@@ -61,6 +61,7 @@ type c15Obs struct {
 	errs                        [5]string
 	rows                        []model.Row
 	walkErr                     string
+	massiveJSON                 string // massive mode: JSON lines sorted (order of roots is free), "" when not observed
 	verify                      string // "" = nil, else sorted lines of the message
 }
 
@@ -73,8 +74,17 @@ func verdictLines(err error) string {
 	return "ERR:" + strings.Join(ls, "\n")
 }
 
-func c15Observe(doc string, single bool, verifyDir string) c15Obs {
+func c15Observe(doc string, single bool, verifyDir string, massive bool) c15Obs {
 	var ob c15Obs
+	if massive {
+		o := OutputMD(doc, gtree.WithEncodeJSON(), gtree.WithMassive(context.Background()))
+		ls := strings.Split(string(o.Out), "\n")
+		sort.Strings(ls)
+		ob.massiveJSON = "err=" + errStr(o.Err) + "\n" + strings.Join(ls, "\n")
+		if o.Panic != nil {
+			ob.massiveJSON = "PANIC"
+		}
+	}
 	run := func(i int, opts ...gtree.Option) string {
 		o := OutputMD(doc, opts...)
 		if o.Panic != nil {
@@ -90,7 +100,7 @@ func c15Observe(doc string, single bool, verifyDir string) c15Obs {
 	if single {
 		ob.toml = run(3, gtree.WithEncodeTOML())
 	}
-	ob.dry = run(4, gtree.WithDryRun(), gtree.WithFileExtensions([]string{".go", "b"}))
+	ob.dry = run(4, gtree.WithDryRun(), gtree.WithFileExtensions([]string{".gz", "b"}))
 	rows, o := WalkMD(doc)
 	ob.rows = rows
 	ob.walkErr = errStr(o.Err)
@@ -139,7 +149,7 @@ func evalC15(c *Ctx, cs *Case) {
 		if err == nil {
 			defer jail.Remove()
 			mo := Guard(func() error {
-				return gtree.MkdirFromMarkdown(strings.NewReader(canon), gtree.WithTargetDir(jail.Target), gtree.WithFileExtensions([]string{".go", "b"}))
+				return gtree.MkdirFromMarkdown(strings.NewReader(canon), gtree.WithTargetDir(jail.Target), gtree.WithFileExtensions([]string{".gz", "b"}))
 			})
 			if mo.Err == nil && mo.Panic == nil {
 				canonSnap, _ = mon.Snap(jail.Target)
@@ -147,7 +157,7 @@ func evalC15(c *Ctx, cs *Case) {
 			}
 		}
 	}
-	ref := c15Observe(canon, len(f) == 1, verifyDir)
+	ref := c15Observe(canon, len(f) == 1, verifyDir, true)
 
 	var sps []gen.Spelling
 	all := gen.AllSpellings(cs.Seed)
@@ -175,7 +185,17 @@ func evalC15(c *Ctx, cs *Case) {
 			sp.Heading = 0
 		}
 		doc := gen.Spell(f, sp)
-		ob := c15Observe(doc, len(f) == 1, verifyDir)
+		// massive mode is observed for bullet-root spellings without a leading blank line
+		// (heading roots in massive mode are a known finding of C10)
+		massive := sp.Heading == 0 && !sp.LeadBlank
+		if massive {
+			cs.SetDoc(doc)
+			cs.Entry = "massive-json"
+			c.Rejournal(cs)
+			cs.Entry = ""
+		}
+		ob := c15Observe(doc, len(f) == 1, verifyDir, massive)
+		cs.Doc, cs.DocText = nil, ""
 		c.Eval(gen.HashString(fkey+"\x00"+sp.String()+strconv.FormatBool(sp.LeadBlank)), nontrivial)
 		c.Count("spellings", 1)
 		diff := ""
@@ -196,6 +216,8 @@ func evalC15(c *Ctx, cs *Case) {
 			diff = "walk"
 		case ob.verify != ref.verify:
 			diff = "verify"
+		case massive && ob.massiveJSON != ref.massiveJSON:
+			diff = "massive-json"
 		}
 		if diff != "" {
 			cs.Entry = diff
@@ -209,7 +231,7 @@ func evalC15(c *Ctx, cs *Case) {
 			j2, err := mon.NewJail(c.TmpDir, true)
 			if err == nil {
 				mo := Guard(func() error {
-					return gtree.MkdirFromMarkdown(strings.NewReader(doc), gtree.WithTargetDir(j2.Target), gtree.WithFileExtensions([]string{".go", "b"}))
+					return gtree.MkdirFromMarkdown(strings.NewReader(doc), gtree.WithTargetDir(j2.Target), gtree.WithFileExtensions([]string{".gz", "b"}))
 				})
 				snap, _ := mon.Snap(j2.Target)
 				c.Eval(gen.HashString(fkey+"\x00mkdir"+sp.String()), nontrivial)
